@@ -236,7 +236,7 @@ func discharge(g *Gen, o *Obligation, workDir string, timeout int, st *solverSta
 		}
 		t1 = timeout
 	}
-	stage1 := []solverSpec{solvers[0], solvers[2]}
+	stage1 := []solverSpec{solvers[0], solvers[2], solvers[1]}
 	if g.isRing() && !o.MustSat {
 		// polynomial identities over the integers: normalise to sums of monomials first (z3 tactic pipeline)
 		ringFile := strings.TrimSuffix(file, ".smt2") + ".ring.smt2"
